@@ -9,6 +9,10 @@ HLCTS = dict(file="happysimulator/core/logical_clocks.py", cls="HLCTimestamp", t
 
 POLICY = "happysimulator/components/rate_limiter/policy.py"
 
+QP = "happysimulator/components/queue_policy.py"
+_QMETHODS = {"capacity": dict(pure=True), "push": dict(params={"item": "Z"}), "pop": dict(ret="opt Z"),
+             "peek": dict(pure=True, ret="opt Z"), "is_empty": dict(pure=True), "__len__": dict(pure=True)}
+
 TARGETS = {
     "ClocksGen": dict(
         out="Gen/ClocksGen.v", tie="C18/GenTie.v",
@@ -87,6 +91,22 @@ TARGETS = {
                           "entries_after": dict(params={"index": "Z"}, pure=True, ret="list LogEntry"),
                           "last_index": dict(pure=True), "last_term": dict(pure=True),
                           "advance_commit": dict(params={"new_commit_index": "Z"}, ret="list LogEntry")}),
+        ],
+    ),
+    # queue items are their integer ids (the policies never look inside an item, except PriorityQueue through
+    # _get_priority, whose result is an arbitrary integer per call); a capacity is float("inf") or an integer
+    "QueuePolicyGen": dict(
+        out="Gen/QueuePolicyGen.v", tie="C08/GenTie.v",
+        header="From HS Require Import Base.Prelude Base.PyLib.",
+        classes=[
+            dict(file=QP, cls="FIFOQueue", fields={"_capacity": "cap", "_queue": "list Z"}, methods=dict(_QMETHODS)),
+            dict(file=QP, cls="LIFOQueue", fields={"_capacity": "cap", "_queue": "list Z"}, methods=dict(_QMETHODS)),
+            dict(file=QP, cls="_PriorityEntry", dataclass_order=True,
+                 fields={"priority": "Z", "insert_order": "Z", "item": "Z"}, methods={}),
+            dict(file=QP, cls="PriorityQueue",
+                 fields={"_capacity": "cap", "_heap": "list _PriorityEntry", "_insert_counter": "Z"},
+                 heaps=["_heap"], oracles={"_get_priority": "Z"}, oracle_fns=["_get_priority"],
+                 methods=dict(_QMETHODS)),
         ],
     ),
 }
